@@ -105,6 +105,8 @@ pub struct MonState {
     pub setlen_images: Vec<(usize, Vec<u8>)>,
     /// mirror backend calls into redb's latch log (verif_c08)
     pub latch_log: bool,
+    /// close() itself reports an error (it still counts as the one close the contract asks for)
+    pub fail_close: bool,
 }
 
 #[derive(Clone)]
@@ -138,6 +140,7 @@ impl MonBackend {
             snapshot_setlen: false,
             setlen_images: vec![],
             latch_log: false,
+            fail_close: false,
         })))
     }
     /// a fresh backend object over the bytes this one holds now (a reopen hands redb a new object);
@@ -155,6 +158,7 @@ impl MonBackend {
             h.pending = g.pending.clone();
             h.snapshot_setlen = g.snapshot_setlen;
             h.latch_log = g.latch_log;
+            h.fail_close = g.fail_close;
         }
         n
     }
@@ -291,12 +295,13 @@ impl StorageBackend for MonBackend {
         g.closes += 1;
         let api = g.cur_api;
         let seq = g.cur_seq;
-        g.events.push(Ev { kind: Kind::Close, off: 0, len: 0, ok: true, api, seq, tid: my_tid() });
+        let ok = !g.fail_close;
+        g.events.push(Ev { kind: Kind::Close, off: 0, len: 0, ok, api, seq, tid: my_tid() });
         if g.latch_log {
-            redb::verif_c08::latch_log_backend(Kind::Close as u8, true);
+            redb::verif_c08::latch_log_backend(Kind::Close as u8, ok);
         }
         g.close_exit_seq = entry_seq();
-        Ok(())
+        if ok { Ok(()) } else { Err(Self::injected()) }
     }
 }
 
